@@ -27,5 +27,8 @@ fixed("C07","R20:scalarwrap:(*opset13.Reshape).Apply#1","0675bcf","Reshape with 
 fixed("C09","R20:scalarwrap:(*opset13.ArgMax).Apply#1","8a11d88","ArgMax of [0 1 2] with axis 0, keepdims 0 returned 'type assert error' instead of the scalar 2")
 known("C08","R19:Slice:rank-restored","Slice [1:2,0:4] of a 3x4 tensor returns shape (4) instead of (1,4): gorgonia's Tensor.Slice drops every sliced axis whose extent becomes 1 and Slice.Apply returns the view as is; a repair needs the ONNX output-shape computation (clamping, negative steps), not a minimal patch (demo: findings/c08_test.go)")
 fixed("C11","R20:scalarwrap:ops.ConvertTensorDtype#8","2e7bd3e","Cast of tensor.New(FromScalar(uint32(7))) to FLOAT panicked 'interface {} is uint32, not []uint32' (IfScalarToSlice had no uint16/uint32/uint64 cases; keys #8..#10)")
+fixed("C10","R18:mul-by-mask:ops.ReLU#1","533382f","Relu(-Inf) = NaN (ReLU computed as X * (X > 0))")
+fixed("C06","R18:mul-by-mask:ops.ReLU#1","533382f","RNN/GRU/LSTM with a relu activation: -Inf pre-activation gives NaN")
+fixed("C10","R20:scalarwrap:opset13.calcPRelu#1","a32be8b","PRelu of a rank-0 tensor returned 'type assert error: expected numeric list, got float32' (keys #1..#3)")
 json.dump(F,open('/verif/known_findings.json','w'),indent=1)
 print(len(F),"entries")
